@@ -1,6 +1,7 @@
 package main
 
 import (
+	"regexp"
 	"math/big"
 	"strings"
 
@@ -10,6 +11,9 @@ import (
 type intrinsicFn func(ex *Exec, st *State, fn *ssa.Function, args []Value, depth int) []Value
 
 var intrinsics = map[string]intrinsicFn{}
+
+// estimators whose results only flow to the (nil) gauge in arithmetic harnesses; subject of C32
+var meteringStubRe = regexp.MustCompile(`^github.com/onflow/cadence/common\.(New(Plus|Minus|Mul|Mod|Div|BitwiseOr|BitwiseXor|BitwiseAnd|BitwiseLeftShift|BitwiseRightShift|Negate)BigIntMemoryUsage|NewBigIntsWordSliceOperation)$`)
 
 func (ex *Exec) noteStub(name string) {
 	if ex.Stats.Stubs == nil {
@@ -74,6 +78,15 @@ func (ex *Exec) tryIntrinsic(st *State, fn *ssa.Function, args []Value, depth in
 	}
 	if o := fn.Origin(); o != nil {
 		name = o.String()
+	}
+	if ex.StubSets["metering"] && meteringStubRe.MatchString(name) {
+		ex.noteStub("stub:" + name)
+		res := fn.Signature.Results()
+		vals := make([]Value, res.Len())
+		for i := range vals {
+			vals[i] = ex.zero(res.At(i).Type())
+		}
+		return []Outcome{{St: st, Kind: ORet, Vals: vals}}, true
 	}
 	if f, ok := intrinsics[name]; ok {
 		ex.noteStub(name)
